@@ -304,7 +304,7 @@ func (b *reqBody) Read(p []byte) (int, error) {
 	b.reads++
 	n := b.reads
 	b.mu.Unlock()
-	if n <= 4 || n%16 == 0 {
+	if n <= 4 || (n%64 == 0 && n <= 64*60) {
 		simcore.Yield("body:" + b.label)
 	}
 	if b.remain == 0 {
